@@ -41,7 +41,8 @@ func NewHijackClientHelloConn(conn net.Conn) *HijackClientHelloConn {
 
 func (c *HijackClientHelloConn) Read(b []byte) (int, error) {
 	n, err := c.tlsConn.Read(b)
-	if err == nil {
+	// a Read may deliver bytes together with an error; they belong to the stream too
+	if err == nil || n > 0 {
 		if c.hasCompleteClientHello() {
 			c.vlogf("got %d bytes, but client hello is already mature, skipping hijack", n)
 		} else {
